@@ -106,14 +106,14 @@ HARNESSES = [
        bounds={'threads': 2, 'slots': '1 reserved + 1 mandatory-worker slot', 'free_rounds': 2, 'forced_rounds': 2}),
 ]
 HARNESSES += [
-  dict(name='iso_dispatch', unit='isod', harness='h_isod.c', defines={'MODE': 0}, scenarios=[{}],
+  dict(name='iso_dispatch', unit='isod', harness='h_isod.c', defines={'MODE': 0}, scenarios=[{'VTAG': '0x5151', 'QTAG': '0x7272'}, {'VTAG': '0x5151', 'QTAG': '0'}, {'VTAG': '0x8000000000000001', 'QTAG': '0x8000000000000001'}],
        cbmc=['--unwind', '12', '--object-bits', '12', '--paths', 'lifo'], timeout=600, native_cflags=['-fno-sanitize=null'],
        desc='isolation bookkeeping of the real dispatcher (task_dispatcher::local_wait_for_all, get_critical_task, r1::spawn, dispatch_loop_guard, real isolate_within_arena) in a one-thread world: '
             'a non-isolated waiter runs task A carrying tag X (as a stolen/mailed task), then a critical task C (tag Z, possibly 0) handed out in the bypass position (the bypass task P is re-spawned), '
             'then the pool tasks; task B (tag Y) opens isolate_within_arena(V) and waits inside for F while a foreign task H (tag Q) sits on top of the pool. Oracle: every executed task has '
             'ed.isolation == its own tag == the tag of the scope that spawned it, every spawned child carries its parent\'s tag (untagged critical task => untagged child), the isolated nested waiter '
-            'executes only tasks tagged V, ed.isolation is restored after the nested level and after isolate returns, every task runs exactly once. Symbolic: the five 64-bit tags, which bodies spawn',
-       bounds={'tasks': 10, 'threads': 1, 'tags': 'any 64-bit words (V != 0)', 'spawning bodies': 'every subset of {P, C, F, B}', 'critical stream': 'cut to its pop/pop_specific contract'}),
+            'executes only tasks tagged V, ed.isolation is restored after the nested level and after isolate returns, every task runs exactly once. Symbolic: the 64-bit tags X, Y, Z and which bodies spawn; concrete per query: the scope tag V and the foreign tag Q (different / untagged / equal)',
+       bounds={'tasks': 10, 'threads': 1, 'tags': 'X, Y, Z any 64-bit words; V, Q concrete per query', 'spawning bodies': 'every subset of {P, C, F, B}', 'critical stream': 'cut to its pop/pop_specific contract'}),
 ]
 MANIFEST = dict(
   level_text='Bounded symbolic execution / bounded model checking of the real arena and worker-budget code. (1) Worker budget: one real operation (threading_control_impl::adjust_demand or set_active_num_workers through the thread_request_serializer proxy, market::adjust_demand, arena::update_request and market::update_allotment) from an arbitrary reachable market state of 3 arenas over <=3 priority levels with symbolic demands <=7 (15 thorough) and any soft limit: allotments sum to min(total demand, limit) (exactly one mandatory worker at limit 0, to an arena with enqueued work), none exceeds its demand, higher priority is saturated first, split is proportional, and the number of threads requested from RML equals min(total, effective limit) for every int-valued total/limit/delta (inductive step over the serializer invariant). (2) Slots: for 2-3 threads entering and leaving one arena (workers via try_join/occupy_free_slot<true>/on_thread_leaving, externals via occupy_free_slot<false>) every interleaving within the round bound: slot indices pairwise distinct and below num_slots, workers never in reserved slots, my_limit covers occupied slots, reference word restored. (3) Isolation: arena_slot::get_task and steal_task on pools of 3 entries with symbolic 64-bit isolation tags only return tasks of the waiter\'s isolation scope and leave every skipped task in place.',
@@ -143,3 +143,8 @@ ASSUMPTIONS = [
   'task_stream / slot hints are below the number of lanes (init_task_streams(slot index) and masking lane selectors)',
   'try/catch/throw in task_dispatcher.h neutralised by macros (units are built with -fno-exceptions; no encoded function contains a try block)',
 ]
+# ---- iso_dispatch additions
+STUBS += ['iso_dispatch: arena::get_critical_task cut to the pop/pop_specific contract (hands out the prepared critical task once, to a non-isolated caller or one with the same tag); '
+          'receive_or_steal_task cut (= would-spin-forever assertion); threading_control::adjust_demand no-op; the remaining world stubs are those of props/C03/h_stubs.h']
+OUTSIDE += ['iso_dispatch: the ed.isolation assignments in receive_or_steal_task / steal_or_get_critical (need a second thread or a mailbox), isolate(d, 0) with the address-derived tag, '
+            'the critical task_stream itself, more than one thread']
